@@ -240,7 +240,10 @@ func (ex *Exec) smallModel(st *State) Model {
 	var small *Term = tTrue
 	for _, in := range st.inputs {
 		if in.Kind == "BlobLen" || in.Kind == "IotaLen" {
-			small = ex.tt.And(small, ex.tt.Slt(in.Vars[0], C(64, 1<<16)))
+			v := in.Vars[0]
+			if v.W > 16 {
+				small = ex.tt.And(small, ex.tt.Ult(v, C(v.W, 1<<16)))
+			}
 		}
 	}
 	if !small.IsTrue() {
